@@ -132,65 +132,81 @@ AllCalls(W)    == {c \in [e : 1..NE, s : Targets, v : 0..5] : c.v < Reg[c.e].nv 
 BaseCalls(W)   == {c \in AllCalls(W) : c.v = 0}
 
 ----------------------------------------------------------------------------
-(* Analysis objects: made?, constructor variant, setter variant (-1 = state not computed yet). *)
-NoAna   == [made |-> FALSE, cv |-> 0, sv |-> 0 - 1]
-AnaInit == [f \in Fams, s \in Targets |-> NoAna]
+(* Analysis objects, per (family, target), present in `an` once constructed:
+   cv  constructor variant, sv setter variant (-1: state not computed yet) - the NOMINAL state, implied by
+       the calls made so far; it is part of the identity of a method call;
+   dirt  number of modifications of the object's state arrays by calls that do not own them - the ACTUAL
+       state differs from the nominal one iff dirt > 0 (always 0 in the pure specification).            *)
+NoAna   == [made |-> FALSE, cv |-> 0, sv |-> 0 - 1, dirt |-> 0]
+AnaOf(an, f, s) == IF <<f, s>> \in DOMAIN an THEN an[<<f, s>>] ELSE NoAna
+Put(fn, x, y)   == [z \in DOMAIN fn \cup {x} |-> IF z = x THEN y ELSE fn[z]]
+
+(* The user's handle on the neighbour file of target s: nom = frames the user has read since (re)opening
+   (what read_neighbors is specified to have consumed), act = where the handle really is.            *)
+CurInit == [s \in Targets |-> [nom |-> 0, act |-> 0]]
 
 (* The steps a user call expands to: the constructor and the default setter it needs, a reopen of
    the handle at end of file.  The harness executes exactly these steps.                        *)
 Plan(c, an, cur, W) ==
   LET r == Reg[c.e] IN
   IF r.role \in {"method", "setter"} THEN
-    LET a  == an[r.fam, c.s]
+    LET a  == AnaOf(an, r.fam, c.s)
         p1 == IF ~a.made THEN << Mk(CtorOf[r.fam], c.s, 0) >> ELSE << >>
         p2 == IF r.need # "" /\ (~a.made \/ a.sv < 0) THEN << Mk(IdxOf[r.need], c.s, 0) >> ELSE << >>
     IN  p1 \o p2 \o << c >>
-  ELSE IF r.role = "reader" /\ cur[c.s] >= W.T[c.s] THEN << Mk(IdxOf["reopen"], c.s, 0), c >>
+  ELSE IF r.role = "reader" /\ cur[c.s].nom >= W.T[c.s] THEN << Mk(IdxOf["reopen"], c.s, 0), c >>
   ELSE << c >>
 
 (* a step is executable iff its own plan is the step alone *)
 Ready(c, an, cur, W) == Plan(c, an, cur, W) = << c >>
 
 (* Call identity: routine, target, argument variant and the part of the session state the routine
-   legitimately reads (state of its analysis object; position of the user's handle).            *)
+   legitimately reads (nominal state of its analysis object; nominal position of the user's handle). *)
 Key(c, an, cur) ==
+  LET r == Reg[c.e]
+      a == AnaOf(an, r.fam, c.s) IN
+  IF r.role \in {"method", "setter"} THEN << c.e, c.s, c.v, a.cv, IF r.need # "" THEN a.sv ELSE 0 - 1 >>
+  ELSE IF r.role = "reader" THEN << c.e, c.s, c.v, cur[c.s].nom, 0 - 1 >>
+  ELSE << c.e, c.s, c.v, 0 - 1, 0 - 1 >>
+
+(* what the routine actually reads besides the shared objects *)
+Hidden(c, an, cur) ==
   LET r == Reg[c.e] IN
-  [e |-> c.e, s |-> c.s, v |-> c.v,
-   st |-> IF r.role \in {"method", "setter"}
-          THEN << an[r.fam, c.s].cv, IF r.need # "" THEN an[r.fam, c.s].sv ELSE 0 - 1 >>
-          ELSE IF r.role = "reader" THEN << cur[c.s], 0 - 1 >>
-          ELSE << 0 - 1, 0 - 1 >>]
+  IF r.role \in {"method", "setter"} THEN AnaOf(an, r.fam, c.s).dirt
+  ELSE IF r.role = "reader" THEN cur[c.s].act - cur[c.s].nom
+  ELSE 0
 
 AnaAfter(c, an) ==
   LET r == Reg[c.e] IN
-  IF r.role = "ctor"   THEN [an EXCEPT ![r.fam, c.s] = [made |-> TRUE, cv |-> c.v, sv |-> 0 - 1]]
-  ELSE IF r.role = "setter" THEN [an EXCEPT ![r.fam, c.s].sv = c.v]
+  IF r.role = "ctor"   THEN Put(an, <<r.fam, c.s>>, [made |-> TRUE, cv |-> c.v, sv |-> 0 - 1, dirt |-> 0])
+  ELSE IF r.role = "setter" THEN Put(an, <<r.fam, c.s>>, [AnaOf(an, r.fam, c.s) EXCEPT !.sv = c.v, !.dirt = 0])
   ELSE an
 
 CurAfter(c, cur) ==
   LET r == Reg[c.e] IN
-  IF r.role = "reader" THEN [cur EXCEPT ![c.s] = @ + 1]
-  ELSE IF r.role = "reopen" THEN [cur EXCEPT ![c.s] = 0]
+  IF r.role = "reader" THEN [cur EXCEPT ![c.s] = [nom |-> @.nom + 1, act |-> @.act + 1]]
+  ELSE IF r.role = "reopen" THEN [cur EXCEPT ![c.s] = [nom |-> 0, act |-> 0]]
   ELSE cur
 
 (* does the call write an output file that must hold the returned value? *)
 Writes(c, an) ==
   LET r == Reg[c.e] IN
   \/ c.v \in r.fv
-  \/ r.fvc # {} /\ an[r.fam, c.s].made /\ an[r.fam, c.s].cv \in r.fvc
+  \/ r.fvc # {} /\ AnaOf(an, r.fam, c.s).made /\ AnaOf(an, r.fam, c.s).cv \in r.fvc
 
 (* which family state / cursor may the step change *)
 MayChangeAna(c, f, s) == Reg[c.e].fam = f /\ c.s = s /\ Reg[c.e].role \in {"ctor", "setter"}
 MayChangeCur(c, s)    == c.s = s /\ Reg[c.e].role \in {"reader", "reopen"}
 
 ----------------------------------------------------------------------------
-(* State machine (W = world descriptor, defined by the model / given by the trace) *)
-Objects == {<<"snap", 1>>, <<"snap", 2>>, <<"args", 1>>, <<"args", 2>>, <<"files", 1>>, <<"files", 2>>}
-ObjsOfTarget(s) == {o \in Objects : o[2] = s}
+(* State machine (W = world descriptor, defined by the model / given by the trace).
+   Shared objects 1..6: snapshot arrays, array arguments, input files of target 1, 2. *)
+Objects == 1..6
+ObjsOfTarget(s) == {s, s + 2, s + 4}
 
 VARIABLES objs,      \* version of every shared object (snapshot arrays, array arguments, input files)
-          ana,       \* analysis objects per family and target
-          cursor,    \* frames consumed on the user's neighbour-file handle, per target
+          ana,       \* analysis objects per (family, target)
+          cursor,    \* the user's neighbour-file handle per target
           disk,      \* output files: step number -> content
           memo,      \* call identity -> result of the first call with that identity
           cache,     \* module-level cache (used by the impure CachedCall only)
@@ -200,13 +216,13 @@ VARIABLES objs,      \* version of every shared object (snapshot arrays, array a
 vars == <<objs, ana, cursor, disk, memo, cache, hist, pending, word>>
 
 ObjsInit == [o \in Objects |-> 0]
-None == [none |-> TRUE]
 
-Val(k, ob)  == [k |-> k, ver |-> ob]              \* the value is a function of identity and inputs only
-Written(x)  == [file |-> x]                       \* projection of a value to the written precision
+Val(k, ob, hid) == << k, ob, hid >>               \* the value: a function of identity and inputs only
+PureVal(k)      == Val(k, ObjsInit, 0)
+Written(x)      == << "file", x >>                \* projection of a value to the written precision
 
-Init == /\ objs = ObjsInit /\ ana = AnaInit /\ cursor = [s \in Targets |-> 0]
-        /\ disk = << >> /\ memo = << >> /\ cache = [e \in 1..NE |-> None]
+Init == /\ objs = ObjsInit /\ ana = << >> /\ cursor = CurInit
+        /\ disk = << >> /\ memo = << >> /\ cache = << >>
         /\ hist = << >> /\ pending = << >> /\ word = << >>
 
 Step(W, c, res, objs2, ana2, cur2, filecontent) ==
@@ -214,53 +230,50 @@ Step(W, c, res, objs2, ana2, cur2, filecontent) ==
       w == Writes(c, ana)
       n == Len(hist) + 1
   IN  /\ objs' = objs2 /\ ana' = ana2 /\ cursor' = cur2
-      /\ memo' = IF k \in DOMAIN memo THEN memo ELSE memo @@ (k :> res)
-      /\ disk' = IF w THEN disk @@ (n :> filecontent) ELSE disk
+      /\ memo' = IF k \in DOMAIN memo THEN memo ELSE Put(memo, k, res)
+      /\ disk' = IF w THEN Put(disk, n, filecontent) ELSE disk
       /\ hist' = Append(hist, [c |-> c, key |-> k, res |-> res,
                                ochg  |-> {o \in Objects : objs2[o] # objs[o]},
-                               achg  |-> {x \in Fams \X Targets : ana2[x] # ana[x]},
+                               achg  |-> {x \in DOMAIN ana2 : AnaOf(ana2, x[1], x[2]) # AnaOf(ana, x[1], x[2])},
                                cchg  |-> {s \in Targets : cur2[s] # cursor[s]},
-                               cur   |-> cur2,
+                               cur   |-> << cur2[1].act, cur2[2].act >>,
                                wrote |-> w, ready |-> Ready(c, ana, cursor, W)])
+
+Here(c) == Val(Key(c, ana, cursor), objs, Hidden(c, ana, cursor))
 
 (* the pure call: the only kind of call in Next *)
 Exec(W, c) ==
-  LET res == Val(Key(c, ana, cursor), objs) IN
-  /\ Step(W, c, res, objs, AnaAfter(c, ana), CurAfter(c, cursor), Written(res))
+  /\ Step(W, c, Here(c), objs, AnaAfter(c, ana), CurAfter(c, cursor), Written(Here(c)))
   /\ UNCHANGED cache
 
 (* ---- impure behaviours (not in Next) ---- *)
 (* in-place centring / normalising / sorting of a snapshot array or an array argument *)
 MutatingCall(W, c, o) ==
-  LET res == Val(Key(c, ana, cursor), objs) IN
   /\ o \in ObjsOfTarget(c.s)
-  /\ Step(W, c, res, [objs EXCEPT ![o] = @ + 1], AnaAfter(c, ana), CurAfter(c, cursor), Written(res))
+  /\ Step(W, c, Here(c), [objs EXCEPT ![o] = @ + 1], AnaAfter(c, ana), CurAfter(c, cursor), Written(Here(c)))
   /\ UNCHANGED cache
 (* module-level cache keyed by the routine only: a different call gets the stale result *)
 CachedCall(W, c) ==
-  LET fresh == Val(Key(c, ana, cursor), objs)
-      res   == IF cache[c.e] # None THEN cache[c.e] ELSE fresh IN
+  LET res == IF c.e \in DOMAIN cache THEN cache[c.e] ELSE Here(c) IN
   /\ Step(W, c, res, objs, AnaAfter(c, ana), CurAfter(c, cursor), Written(res))
-  /\ cache' = [cache EXCEPT ![c.e] = res]
+  /\ cache' = Put(cache, c.e, res)
 (* the file is written from another (differently rounded / recomputed) object than the one returned *)
 FileFromOtherObject(W, c) ==
-  LET res   == Val(Key(c, ana, cursor), objs)
-      other == Val([Key(c, ana, cursor) EXCEPT !.v = @ + 100], objs) IN
   /\ Writes(c, ana)
-  /\ Step(W, c, res, objs, AnaAfter(c, ana), CurAfter(c, cursor), Written(other))
+  /\ Step(W, c, Here(c), objs, AnaAfter(c, ana), CurAfter(c, cursor), Written(<< "other", Here(c) >>))
   /\ UNCHANGED cache
 (* a plain method modifies the state arrays of its analysis object in place *)
 StateCorruptingCall(W, c) ==
-  LET res == Val(Key(c, ana, cursor), objs)
-      r   == Reg[c.e] IN
+  LET r == Reg[c.e] IN
   /\ r.role = "method"
-  /\ Step(W, c, res, objs, [ana EXCEPT ![r.fam, c.s].cv = @ + 100], CurAfter(c, cursor), Written(res))
+  /\ Step(W, c, Here(c), objs, Put(ana, <<r.fam, c.s>>, [AnaOf(ana, r.fam, c.s) EXCEPT !.dirt = @ + 1]),
+          CurAfter(c, cursor), Written(Here(c)))
   /\ UNCHANGED cache
 (* a routine that was given the file name reads from the user's open handle instead *)
 CursorStealingCall(W, c) ==
-  LET res == Val(Key(c, ana, cursor), objs) IN
   /\ Reg[c.e].role \notin {"reader", "reopen"}
-  /\ Step(W, c, res, objs, AnaAfter(c, ana), [cursor EXCEPT ![c.s] = @ + 1], Written(res))
+  /\ cursor[c.s].act < W.T[c.s]
+  /\ Step(W, c, Here(c), objs, AnaAfter(c, ana), [cursor EXCEPT ![c.s].act = @ + 1], Written(Here(c)))
   /\ UNCHANGED cache
 
 ----------------------------------------------------------------------------
@@ -271,8 +284,8 @@ InputsUnchanged ==
 RepeatAgrees ==
   \A i, j \in DOMAIN hist : hist[i].key = hist[j].key => hist[i].res = hist[j].res
 ResultDetermined ==                     \* stronger: the result is THE function of identity and inputs
-  /\ \A i \in DOMAIN hist : hist[i].res = Val(hist[i].key, ObjsInit)
-  /\ \A k \in DOMAIN memo : memo[k] = Val(k, ObjsInit)
+  /\ \A i \in DOMAIN hist : hist[i].res = PureVal(hist[i].key)
+  /\ \A k \in DOMAIN memo : memo[k] = PureVal(k)
 FileHoldsReturned ==
   /\ \A i \in DOMAIN hist : hist[i].wrote => (i \in DOMAIN disk /\ disk[i] = Written(hist[i].res))
   /\ \A i \in DOMAIN disk : hist[i].wrote
